@@ -7,6 +7,9 @@ CONSTANTS
   ClChk = TRUE
   Threaded = TRUE
   FinalValid = FALSE
+  QCap = 0
+  Gating = FALSE
+  QfRet = TRUE
 INVARIANT InvAllClauses
 INVARIANT InvNeverStuck
 INVARIANT InvDelivered
